@@ -34,19 +34,22 @@ def build(tier, seed, exclude):
             return T.fail(err) if err else True
         """, timeout=to)
     # failing / stalled workflows still end (async loop): every failing subset, symbolic schedule
-    params = "sd: int, bits: int, k: int"
-    pre = [f"0 <= sd < {4 ** NS}", "0 <= bits < 4 and 0 <= k <= 2"]
-    ch = f"AP.S.decode(T.real(sd), {NS}, 4)"
+    # one condition per concurrency limit; the schedule code is realised first so that the failing subset varies fastest
+    # (CrossHair enumerates the last realised value first)
+    params = "sd: int, bits: int"
+    pre = [f"0 <= sd < {4 ** NS}", "0 <= bits < 4"]
+    ch = f"AP.S.decode(sdr, {NS}, 4)"
     for shape in ("indep", "forkjoin"):
-        g.cond(f"h_ends_{shape}", params, pre, f"""
-            fails = {{n for b, n in enumerate(AP.FAILABLE[{shape!r}]) if (T.real(bits) >> b) & 1}}
-            kk = T.real(k)
-            res, err, ev, stats = AP.run_shape({shape!r}, fails, {ch}, None if kk == 0 else kk)
-            T.reach()
-            if isinstance(err, AP.S.BudgetExceeded) or (res is None and err is None):
-                return T.fail(lambda: "{shape} failing %s k=%s schedule %s: %r" % (sorted(fails), kk, {ch}, err))
-            return True
-        """, timeout=to)
+        for kk in (0, 1, 2):
+            g.cond(f"h_ends_{shape}_k{kk}", params, pre, f"""
+                sdr = T.real(sd)
+                fails = {{n for b, n in enumerate(AP.FAILABLE[{shape!r}]) if (T.real(bits) >> b) & 1}}
+                res, err, ev, stats = AP.run_shape({shape!r}, fails, {ch}, {None if kk == 0 else kk})
+                T.reach()
+                if isinstance(err, AP.S.BudgetExceeded) or (res is None and err is None):
+                    return T.fail(lambda: "{shape} failing %s max_concurrent={kk or 'unlimited'} schedule %s: %r" % (sorted(fails), {ch}, err))
+                return True
+            """, timeout=to)
     g.cond("twin_c18", "j: int", ["0 <= j < 3"], """
         err = AP.c18(-1, T.real(j), True, False, [])
         return False
